@@ -23,33 +23,42 @@ Lemma mupdate_match s e cur :
 Proof. intros Hg Hv. unfold mupdate. rewrite Hg, Hv, N.eqb_refl. reflexivity. Qed.
 
 Lemma mupdate_absent s e :
-  mget s (me_key e) = None ->
+  mget s (me_key e) = None -> me_ver e = 0 ->
   mupdate s e = (apply_op s e, (kv_ResultCodeSuccess, {| pk := me_key e; pv := me_val e; pver := me_index e |})).
-Proof. intros Hg. unfold mupdate. rewrite Hg. reflexivity. Qed.
+Proof. intros Hg Hv. unfold mupdate. rewrite Hg, Hv. reflexivity. Qed.
+Lemma mupdate_absent_mismatch s e :
+  mget s (me_key e) = None -> me_ver e <> 0 ->
+  mupdate s e = (s, (kv_ResultCodeVersionMismatch, {| pk := me_key e; pv := []; pver := 0 |})).
+Proof. intros Hg Hv. unfold mupdate. rewrite Hg. destruct (N.eqb_spec (me_ver e) 0); [contradiction|reflexivity]. Qed.
 
-(* success iff absent or versions equal *)
+(* success iff the supplied version is the key's current one - 0 for an absent key *)
 Definition cas_ok (s : mstore) (e : mentry) : bool :=
-  match sget s (me_key e) with Some (_, ver) => ver =? me_ver e | None => true end.
+  match sget s (me_key e) with Some (_, ver) => ver =? me_ver e | None => me_ver e =? 0 end.
 
 Lemma mupdate_code s e :
   fst (snd (mupdate s e)) = if cas_ok s e then kv_ResultCodeSuccess else kv_ResultCodeVersionMismatch.
 Proof.
-  unfold mupdate, cas_ok, mget. destruct (sget s (me_key e)) as [[v ver]|]; simpl; [|reflexivity].
-  destruct (ver =? me_ver e); reflexivity.
+  unfold mupdate, cas_ok, mget. destruct (sget s (me_key e)) as [[v ver]|]; simpl.
+  - destruct (ver =? me_ver e); reflexivity.
+  - destruct (me_ver e =? 0); reflexivity.
 Qed.
 
 Lemma mupdate_state s e : fst (mupdate s e) = if cas_ok s e then apply_op s e else s.
 Proof.
-  unfold mupdate, cas_ok, mget, apply_op. destruct (sget s (me_key e)) as [[v ver]|]; simpl; [|reflexivity].
-  destruct (ver =? me_ver e); reflexivity.
+  unfold mupdate, cas_ok, mget, apply_op. destruct (sget s (me_key e)) as [[v ver]|]; simpl.
+  - destruct (ver =? me_ver e); reflexivity.
+  - destruct (me_ver e =? 0); reflexivity.
 Qed.
 
 Lemma mupdate_mismatch_reports_current s e :
-  cas_ok s e = false -> exists v ver, sget s (me_key e) = Some (v, ver) /\ ver <> me_ver e /\
-    snd (snd (mupdate s e)) = {| pk := me_key e; pv := v; pver := ver |}.
+  cas_ok s e = false ->
+  (exists v ver, sget s (me_key e) = Some (v, ver) /\ ver <> me_ver e /\
+     snd (snd (mupdate s e)) = {| pk := me_key e; pv := v; pver := ver |}) \/
+  (sget s (me_key e) = None /\ me_ver e <> 0 /\ snd (snd (mupdate s e)) = {| pk := me_key e; pv := []; pver := 0 |}).
 Proof.
-  unfold cas_ok, mupdate, mget. destruct (sget s (me_key e)) as [[v ver]|]; [|discriminate].
-  intros H. exists v, ver. simpl. rewrite H. repeat split. now apply N.eqb_neq.
+  unfold cas_ok, mupdate, mget. destruct (sget s (me_key e)) as [[v ver]|]; intros H.
+  - left. exists v, ver. simpl. rewrite H. repeat split. now apply N.eqb_neq.
+  - right. simpl. rewrite H. repeat split. now apply N.eqb_neq.
 Qed.
 
 (* ---- invariant and refinement to a plain partial map ---- *)
@@ -62,7 +71,7 @@ Proof. intros H. rewrite mupdate_state. destruct (cas_ok s e); [apply apply_op_s
 Definition amap := bytes -> option mval.
 Definition aupd (m : amap) (k : bytes) (o : option mval) : amap := fun k' => if beqb k' k then o else m k'.
 Definition spec_update (m : amap) (e : mentry) : amap :=
-  let ok := match m (me_key e) with Some (_, ver) => ver =? me_ver e | None => true end in
+  let ok := match m (me_key e) with Some (_, ver) => ver =? me_ver e | None => me_ver e =? 0 end in
   if ok then match me_op e with
              | OpSet => aupd m (me_key e) (Some (me_val e, me_index e))
              | OpDelete => aupd m (me_key e) None
@@ -73,7 +82,7 @@ Definition spec_update (m : amap) (e : mentry) : amap :=
 Theorem mupdate_refines s e : sorted s -> forall k, sget (fst (mupdate s e)) k = spec_update (sget s) e k.
 Proof.
   intros Hs k. rewrite mupdate_state. unfold spec_update, cas_ok.
-  destruct (match sget s (me_key e) with Some (_, ver) => ver =? me_ver e | None => true end); [|reflexivity].
+  destruct (match sget s (me_key e) with Some (_, ver) => ver =? me_ver e | None => me_ver e =? 0 end); [|reflexivity].
   unfold apply_op, aupd. destruct (me_op e).
   - apply sget_sset.
   - apply sget_sdel, Hs.
@@ -94,7 +103,7 @@ Fixpoint spec_run (m : amap) (es : list mentry) : amap :=
 Lemma spec_update_ext m1 m2 e : (forall k, m1 k = m2 k) -> forall k, spec_update m1 e k = spec_update m2 e k.
 Proof.
   intros H k. unfold spec_update. rewrite (H (me_key e)).
-  destruct (match m2 (me_key e) with Some (_, ver) => ver =? me_ver e | None => true end); [|apply H].
+  destruct (match m2 (me_key e) with Some (_, ver) => ver =? me_ver e | None => me_ver e =? 0 end); [|apply H].
   destruct (me_op e); unfold aupd; try destruct (beqb k (me_key e)); auto.
 Qed.
 
@@ -132,7 +141,7 @@ Lemma mupdate_versions s e n :
   sorted s -> versions_below s n -> n <= me_index e -> versions_below (fst (mupdate s e)) (me_index e + 1).
 Proof.
   intros Hs Hb Hn k v ver. rewrite mupdate_refines by assumption. unfold spec_update.
-  destruct (match sget s (me_key e) with Some (_, ver0) => ver0 =? me_ver e | None => true end).
+  destruct (match sget s (me_key e) with Some (_, ver0) => ver0 =? me_ver e | None => me_ver e =? 0 end).
   - destruct (me_op e); unfold aupd; try destruct (beqb k (me_key e)); intros H; try discriminate;
       try (injection H as _ <-; lia); try (specialize (Hb _ _ _ H); lia).
   - intros H. specialize (Hb _ _ _ H). lia.
@@ -147,8 +156,7 @@ Theorem set_fresh_version s e n :
 Proof.
   intros Hs Hb Hn Hop Hok. split; [|split].
   - rewrite mupdate_state, Hok. unfold apply_op. rewrite Hop, sget_sset, beqb_refl. reflexivity.
-  - unfold cas_ok in Hok. unfold mupdate, mget. destruct (sget s (me_key e)) as [[v ver]|]; simpl; [|reflexivity].
-    rewrite Hok. reflexivity.
+  - unfold cas_ok in Hok. unfold mupdate, mget. destruct (sget s (me_key e)) as [[v ver]|]; simpl; rewrite Hok; reflexivity.
   - intros k v ver H. specialize (Hb _ _ _ H). lia.
 Qed.
 
